@@ -516,3 +516,200 @@ def run(ctx):
         c10._modstate(ctx.view(lambda w: getattr(w, "qual", None) in reach, rule="C16.state", prefix="state_"))
 
     ctx.section(_sec_state)
+
+    def _sec_serialisable():
+        # ------------------------------------------------------- serialisable
+        # "serialisable JSON": the schema objects are the parameter entries of the parsed models, passed through the
+        # JSON-schema emitter. A producer on that path that adopts the keywords of a `Column(...)` call without a
+        # whitelist also adopts their VALUES — AST nodes such as `server_default=Identity()` of an inferred primary
+        # key — and json.dumps of the document fails. C14's producer analysis (origin of the returned entry, whitelist
+        # test) on the functions reachable from openapi_bulk.
+        from ..core import RefGraph
+        from . import c14
+
+        graph = RefGraph(index)
+        ob = index.func("cdd.compound.openapi.gen_openapi.openapi_bulk")
+        reach = graph.reachable([ob.qual])
+        n_prod = 0
+        for q in sorted(reach):
+            f = index.funcs.get(q)
+            if f is None or f.mod.is_test:
+                continue
+            for r in iter_own(f.node):
+                if not (isinstance(r, ast.Return) and isinstance(r.value, ast.Tuple) and len(r.value.elts) == 2 and isinstance(r.value.elts[1], ast.Name)):
+                    continue
+                x = r.value.elts[1].id
+                origin = c14._origin(index, f, x)
+                if origin is None or "dict(" not in origin:
+                    continue
+                n_prod += 1
+                closed = c14._whitelisted(f, x)
+                ctx.ob(
+                    "C16.serialisable",
+                    f,
+                    "the column entry that becomes a schema property holds JSON values only",
+                    closed,
+                    ""
+                    if closed
+                    else "the entry `{}` is {} and reaches the schema object unfiltered: a keyword whose value is an AST node "
+                    "(`server_default=Identity()` of an inferred primary key) ends up in the document, and json.dumps raises "
+                    "TypeError: Object of type Call is not JSON serializable".format(x, origin),
+                    line=r.lineno,
+                )
+        ctx.count("column_entry_producers_reaching_the_document", n_prod)
+        ctx.need(n_prod >= 1, "no column-entry producer is reachable from openapi_bulk any more")
+
+    ctx.section(_sec_serialisable)
+
+    def _sec_keys():
+        # --------------------------------------------------------------- keys
+        # Routes refer to a model by the name of its CLASS (`#/components/schemas/UserProfile`). openapi_bulk must
+        # file the schema of a class model under that very name: a key computed from the parsed table name with a
+        # case-changing string method (`"user_profile".title()` == "User_Profile", `"UserProfile".title()` ==
+        # "Userprofile") agrees with it for single-word names only, and every $ref of a multi-word model dangles.
+        ob = index.func("cdd.compound.openapi.gen_openapi.openapi_bulk")
+        CASE = ("title", "capitalize", "lower", "upper", "swapcase", "casefold")
+        schemas = None
+        for n in iter_own(ob.node):
+            if isinstance(n, ast.Dict):
+                for k_, v_ in zip(n.keys, n.values):
+                    if isinstance(k_, ast.Constant) and k_.value == "schemas":
+                        schemas = v_
+        if schemas is None:
+            ctx.note("C16.keys: no `\"schemas\": ...` entry in openapi_bulk's document literal (restructured); not decided")
+            ctx.count("schema_key_arms", 0)
+            return
+        par = ob.mod.parents
+        n_arms = 0
+        for c in ast.walk(schemas):
+            if not (isinstance(c, ast.Call) and (index.callee(ob.mod, c, ob) or "").endswith("json_schema.emit.json_schema")):
+                continue
+            tup = par.get(c)
+            if not (isinstance(tup, ast.Tuple) and len(tup.elts) == 2 and tup.elts[1] is c):
+                continue
+            key = tup.elts[0]
+            lam = par.get(tup)
+            if not isinstance(lam, ast.Lambda) or len(lam.args.args) != 1:
+                continue
+            p_ = lam.args.args[0].arg
+            mp = par.get(lam)
+            if not (isinstance(mp, ast.Call) and norm(mp.func) == "map" and len(mp.args) == 2 and mp.args[0] is lam):
+                continue
+            src = mp.args[1]
+            # the element producer: map(lambda node: <arms>, ...)
+            if not (isinstance(src, ast.Call) and norm(src.func) == "map" and src.args and isinstance(src.args[0], ast.Lambda)):
+                continue
+            inner = src.args[0]
+
+            def arms(e, table_only=False):
+                if isinstance(e, ast.IfExp):
+                    t = e.test
+                    pos = None
+                    if isinstance(t, ast.Call) and norm(t.func) == "isinstance" and len(t.args) == 2:
+                        names = {norm(x).rpartition(".")[2] for x in (t.args[1].elts if isinstance(t.args[1], ast.Tuple) else [t.args[1]])}
+                        pos = "ClassDef" not in names
+                    yield from arms(e.body, table_only or bool(pos))
+                    yield from arms(e.orelse, table_only)
+                else:
+                    yield table_only, e
+
+            for table_only, arm in arms(inner.body):
+                n_arms += 1
+                # the key of this arm: <param>[0] selects the first element the arm builds; anything else is computed
+                # from the arm's value by the key expression itself
+                arm_key = key
+                if isinstance(key, ast.Subscript) and isinstance(key.value, ast.Name) and key.value.id == p_ and isinstance(key.slice, ast.Constant) and key.slice.value == 0:
+                    t_ = arm
+                    if isinstance(t_, ast.Call) and isinstance(t_.func, ast.Lambda):
+                        t_ = t_.func.body
+                    if isinstance(t_, ast.Tuple) and t_.elts:
+                        arm_key = t_.elts[0]
+                    else:
+                        ctx.note("C16.keys: cannot see which key the arm `{}` builds; not decided".format(short(arm, 50)))
+                        continue
+                bad = [x for x in ast.walk(arm_key) if isinstance(x, ast.Call) and isinstance(x.func, ast.Attribute) and x.func.attr in CASE]
+                ok = table_only or not bad
+                ctx.ob(
+                    "C16.keys",
+                    ob,
+                    "the schema of a {} model is filed under {}".format("Table" if table_only else "class", "a name derived from the table" if table_only else "the class's own name, unchanged"),
+                    ok,
+                    ""
+                    if ok
+                    else "the schema key of a class model is `{}`: `.{}()` re-capitalises the name (\"UserProfile\" -> \"Userprofile\", "
+                    "\"user_profile\" -> \"User_Profile\"), while the routes refer to `#/components/schemas/<ClassName>`: every $ref of "
+                    "a multi-word model dangles".format(short(arm_key, 60), bad[0].func.attr),
+                    line=getattr(arm_key, "lineno", ob.node.lineno),
+                )
+        ctx.count("schema_key_arms", n_arms)
+
+    ctx.section(_sec_keys)
+
+    def _sec_append():
+        # ------------------------------------------------------------- append
+        # "1..3 models per document", routes upserted one model (or one CRUD letter) after the other: upsert_routes
+        # creates the routes file with rendered source (`to_code` emits no final newline) and later APPENDS further
+        # routes to it. Unless the created text ends with a line break or the appended text starts with one, the first
+        # appended decorator is glued to the last statement of the file (`response.status = 204@app.post(...)` still
+        # parses — as a matrix multiplication — and the route silently loses its decorator).
+        up = index.func("cdd.compound.openapi.gen_routes.upsert_routes")
+        from ..region import Region
+        from ..core import RefGraph
+
+        def starts_with_newline(e):
+            if isinstance(e, ast.Constant) and isinstance(e.value, str):
+                return e.value.startswith(("\n", "\r"))
+            if isinstance(e, ast.BinOp) and isinstance(e.op, ast.Add):
+                return starts_with_newline(e.left)
+            if isinstance(e, ast.Call) and isinstance(e.func, ast.Attribute) and e.func.attr == "format" and isinstance(e.func.value, ast.Constant):
+                return str(e.func.value.value).startswith(("\n", "\r"))
+            return False
+
+        def ends_with_newline(e):
+            if isinstance(e, ast.Constant) and isinstance(e.value, str):
+                return e.value.endswith("\n")
+            if isinstance(e, ast.BinOp) and isinstance(e.op, ast.Add):
+                return ends_with_newline(e.right)
+            if isinstance(e, ast.Call) and isinstance(e.func, ast.Attribute) and e.func.attr == "format" and isinstance(e.func.value, ast.Constant):
+                return str(e.func.value.value).endswith("\n")
+            return False
+
+        created_ok, appended_ok, n_create, n_append = True, True, 0, 0
+        for g_, w in Region(index, RefGraph(index), up).nodes():
+            if not isinstance(w, ast.With):
+                continue
+            for it in w.items:
+                c = it.context_expr
+                if not (isinstance(c, ast.Call) and norm(c.func) == "open" and it.optional_vars is not None and isinstance(it.optional_vars, ast.Name)):
+                    continue
+                mode = c.args[1] if len(c.args) > 1 else next((k.value for k in c.keywords if k.arg == "mode"), None)
+                mode = mode.value if isinstance(mode, ast.Constant) else "r"
+                h = it.optional_vars.id
+                writes = [x for st in w.body for x in ast.walk(st) if isinstance(x, ast.Call) and isinstance(x.func, ast.Attribute) and x.func.attr == "write" and norm(x.func.value) == h and x.args]
+                if not writes:
+                    continue
+                if "a" in mode:
+                    n_append += 1
+                    appended_ok = appended_ok and starts_with_newline(writes[0].args[0])
+                elif "w" in mode:
+                    n_create += 1
+                    created_ok = created_ok and ends_with_newline(writes[-1].args[0])
+        ctx.count("routes_file_creations", n_create)
+        ctx.count("routes_file_appends", n_append)
+        if n_append:
+            ok = appended_ok or (n_create > 0 and created_ok)
+            ctx.ob(
+                "C16.append",
+                up,
+                "routes appended to an existing routes file start on a line of their own",
+                ok,
+                ""
+                if ok
+                else "upsert_routes writes rendered source without a final newline and later appends more routes without a "
+                "leading one: the first appended `@app.post(...)` is glued to the last statement of the file "
+                "(`response.status = 204@app.post(...)`), so the routes of a second model — or of a later CRUD letter — "
+                "lose their decorator and the document has no operation for them",
+                line=up.node.lineno,
+            )
+
+    ctx.section(_sec_append)
